@@ -90,6 +90,8 @@ func ImportModuleLevelObject(ctx Context, name string, globals, locals StringDic
 	if impl := GetModuleImpl(name); impl != nil {
 		module, err := ctx.ModuleInit(impl)
 		if err != nil {
+			// A module whose body raised must not stay importable
+			ctx.Store().DiscardModule(name)
 			return nil, err
 		}
 		return module, nil
@@ -125,6 +127,11 @@ func ImportModuleLevelObject(ctx Context, name string, globals, locals StringDic
 
 	module, err := RunCode(ctx, out.Code, out.FileDesc, name)
 	if err != nil {
+		// The module was registered before its body ran (so that import
+		// cycles work).  The body raised: like CPython, take the half
+		// initialised module out of the store again so that a later
+		// import runs the body again instead of silently succeeding.
+		ctx.Store().DiscardModule(name)
 		return nil, err
 	}
 
